@@ -5,7 +5,7 @@ from __future__ import annotations
 import itertools
 
 from .. import automata as A
-from .. import blocks, e1, impl, refmodel
+from .. import envs, blocks, e1, impl, refmodel
 from ..chartgen import FORMAT_TRAPS, RAW, UNICODE_TRAPS, mk
 from ..linelang import BL
 
@@ -48,6 +48,7 @@ def must(f):
 
 
 def setup():
+    envs.enable(16)  # E1-M: every 16th model-equality case again under every environment of mc/envs.py
     impl.load()
 
 
